@@ -1515,7 +1515,7 @@ def threshold_hit_cases(ctx):
 
 
 def constant_gene_case(ctx):
-    """Finding F28 (c11-constant-gene-not-recorded): a gene CONSTANT in both clusters at values whose float variance
+    """Finding F33 (c11-constant-gene-not-recorded): a gene CONSTANT in both clusters at values whose float variance
     is exactly 0 (all cells 2.0 against all cells 0.0 - as different as two clusters can be, penetrance 1 against 0)
     gets nu = 0, t.cdf = NaN, p = 1 and is NOT recorded, while the same gene at 3.3 / 1.1 (float variance 1e-15 by
     cancellation) IS recorded with t ~ 1e8: whether a constant gene is a marker is decided by rounding noise.  The
